@@ -219,24 +219,28 @@ CHECKS["C01"] = dict(
     text="Lean: three executable pieces — the reference semantics of the parsed tree (RefSem: documents/specs applied to the Structure "
          "tree, every structure and modifier of the property, flags, implicit output), the model of transpile.py (Transpile, element "
          "and modifier templates regenerated from the source), and a semantics of the emitted Python fragment (PySem) — and the "
-         "compiler-correctness theorems simulation / call_protocol / named_call_protocol / compile_correct_partial_no_modifiers: for EVERY program of the "
-         "fragment (integer literals; every element whose table entry is the process_element boilerplate of a first-order function — "
+         "compiler-correctness theorems simulation / call_protocol / named_call_protocol / compile_correct: for EVERY program over the covered "
+         "element tokens (EVERY STRUCTURE AND MODIFIER of the property: integer literals; every element whose table entry is the process_element boilerplate of a first-order function — "
          "237 entries —; the 21 hand-written stack / context / input / register / printing templates; global variables; if chains of "
          "any length; for over numbers / lists with unnamed / named / ghost loop variable; while with and without a condition; break / "
          "continue; LAMBDAS with their call protocol — arity from the caller, stored_arity or declaration, arguments popped by reference "
          "or from safe_apply, own stack / input scope / context value, result or early return with X —; map / filter / sort lambdas and the "
          "elements M F sort-by on function values; the call element; LIST LITERALS (every item in its own frame on a copy of the stack); "
          "NAMED FUNCTIONS — definition, the parameter prologue with counts / names / *, the call by reference on the caller's stack, "
-         "recursion —; any nesting), every input list, every flag set, every fuel: "
+         "recursion —; the EIGHT MODIFIERS & v ~ ß ƒ ɖ ₌ ₍ (operand wrapped by lambda_wrap, function_A = pop(stack, 1, ctx), "
+         "the template incl. retain_popped, stored_arity, the stack copy of the parallel modifiers); any nesting), every input list, every flag set, every fuel: "
          "wherever the reference semantics is defined, the Python semantics of the transpiled program yields the same final stack and "
          "the same printed text incl. the implicit output. Proof: strong induction on fuel outside, structural induction on the program "
          "inside, a simulation relation with function frames and closure tables; parametric in the element library; table facts by "
          "kernel evaluation over the regenerated element table. Tie: real execute_vyxal vs RefSem (the property's own oracle) and vs "
          "PySem∘Transpile on every generated program of the FULL grammar (named functions, list literals, all modifiers too); RefSem "
          "vs PySem∘Transpile directly; ast.parse(transpile(p)) vs the transpiler model; element functions vs CoreLib.elemFn.",
-    note=COMMON_NOTE + "Partial in a named way: the theorem covers everything but the modifiers (v & ~ ß ƒ ɖ ₌ ₍ …) and functions defined "
-         "inside functions — those are covered by the correspondence streams only (the full statement compile_correct is kept as a comment next to the "
-         "proved one). The reference semantics follows the implementation where documents/specs is silent or stale (numeric loops run "
+    note=COMMON_NOTE + "Partial in a named way: the theorem is one-directional (wherever the reference semantics gives the run a meaning) "
+         "and covers every structure and modifier but only the element tokens whose table entry has one of the proved shapes "
+         "(237 boilerplates, 21 core templates, map / filter / sort-by, the call element; integers and variables among literals); "
+         "runs the reference semantics marks unmodelled (functions defined inside functions, continue in while, strings, "
+         "non-integer numbers, …) are covered by the correspondence streams only. "
+         "The reference semantics follows the implementation where documents/specs is silent or stale (numeric loops run "
          "over [range_start, n + range_end), an if does not set the context value, lambdas receive arguments in pop order). Lazily consumed "
          "lambda bodies are generated pure (C13/C14 own laziness). T3/T4: CPython executes the fragment as PySem says (validated per case).",
     technique="Lean 4 proof (compiler correctness: strong induction on fuel, structural induction on the program, simulation relation with "
